@@ -109,27 +109,6 @@ fn objective(x: &Mat, yi: &[usize], k: usize, w: &Mat, alpha: f64) -> (f64, Mat)
     (f, g)
 }
 
-fn replica_hits_iteration_limit(x: &Mat, yi: &[usize], k: usize, rows: usize, alpha: f64) -> bool {
-    let p = x.c;
-    let unpack = |w: &DenseMatrix<f64>| Mat { r: rows, c: p + 1, d: (0..rows * (p + 1)).map(|j| w.get(0, j)).collect() };
-    let f = |w: &DenseMatrix<f64>| -> f64 { objective(x, yi, k, &unpack(w), alpha).0 };
-    let df = |g: &mut DenseMatrix<f64>, w: &DenseMatrix<f64>| {
-        let gg = objective(x, yi, k, &unpack(w), alpha).1;
-        for j in 0..gg.d.len() {
-            g.set(0, j, gg.d[j]);
-        }
-    };
-    let x0 = DenseMatrix::zeros(1, rows * (p + 1));
-    let ls: Backtracking<f64> = Backtracking { order: FunctionOrder::THIRD, ..Default::default() };
-    let opt: LBFGS<f64> = Default::default();
-    match catch(|| opt.optimize(&f, &df, &x0, &ls).iterations) {
-        // the library's own objective differs from ours in the last digits (ln(1+e^s) is approximated for s > 15),
-        // so runs that need nearly the whole budget here exhaust it there: count anything above half the budget
-        Ok(it) => it >= 500,
-        Err(_) => false,
-    }
-}
-
 fn check_logit(case: &LogitCase, ctx: &mut Ctx) -> Result<(), Fail> {
     let x = &case.x;
     let (n, p) = (x.r, x.c);
@@ -146,8 +125,12 @@ fn check_logit(case: &LogitCase, ctx: &mut Ctx) -> Result<(), Fail> {
     let mut all = x.clone();
     all = all.vstack(&case.fresh);
     let qm = <DenseB as Build<f64>>::build(&all);
+    let _ = smartcore::verif_hooks::take_last_optimizer_run();
+    let mut optimizer_run = None;
     let r = catch(|| {
         let m = LogisticRegression::fit(&xm, &case.y, LogisticRegressionParameters::default().with_alpha(case.alpha)).map_err(|e| e.to_string())?;
+        // (iterations used, iteration limit) of the L-BFGS run inside `fit`, through the verification hook
+        optimizer_run = smartcore::verif_hooks::take_last_optimizer_run();
         let pred = m.predict(&qm).map_err(|e| e.to_string())?;
         Ok::<_, String>((to_mat(m.coefficients()), to_mat(m.intercept()), pred))
     });
@@ -170,8 +153,8 @@ fn check_logit(case: &LogitCase, ctx: &mut Ctx) -> Result<(), Fail> {
     if case.alpha > 0.0 {
         let (gn0, gn1) = (g0.max_abs(), g1.max_abs());
         if let Err(mut e) = ctx.bound("logistic/stationarity", gn1, 1e-5 * gn0.max(1.0)) {
-            // Root cause key: does L-BFGS (same optimiser, same start, mathematically identical objective, driven
-            // through the verification re-export) exhaust its fixed budget of 1000 iterations on this problem?
+            // Root cause key: did the L-BFGS run inside this very fit stop because it exhausted its fixed budget
+            // of 1000 iterations (read through the verification hook), rather than by its convergence test?
             // Second root cause (binary model only): the library evaluates ln(1+e^s) as `s` for s > 15, a jump of
             // 3e-7 at s = 15 that makes objective and gradient inconsistent; once a training row's score passes 15 the
             // line search rejects good steps and the optimiser stalls.
@@ -179,7 +162,7 @@ fn check_logit(case: &LogitCase, ctx: &mut Ctx) -> Result<(), Fail> {
             if k == 2 && max_score > 15.0 && gn1 <= gn0.max(1.0) {
                 e.sig = "logistic/stationarity/softplus-jump".into();
                 e.msg = format!("{} (binary model, a training row has linear score {:.1} > 15 where RealNumber::ln_1pe switches to its discontinuous approximation; n={}, p={}, alpha={})", e.msg, max_score, n, p, case.alpha);
-            } else if replica_hits_iteration_limit(x, &yi, k, rows, case.alpha) && gn1 <= gn0.max(1.0) {
+            } else if matches!(optimizer_run, Some((it, lim)) if it >= lim) && gn1 <= gn0.max(1.0) {
                 e.sig = "logistic/stationarity/iteration-limit".into();
                 e.msg = format!("{} (L-BFGS with its default memory of 10 needs more than its 1000 iterations on these badly scaled features; n={}, p={}, k={}, alpha={})", e.msg, n, p, k, case.alpha);
             }
